@@ -118,6 +118,9 @@ func runC18(c *runCtx) error {
 			u2[p] = n
 		}
 		for p := range c18Files(r, bl, []string{"metadata"}, 1) {
+			if c10Conflicts(u2, p) { // a file where the first tree has a directory (or the reverse): not a tree
+				continue
+			}
 			u2[p] = bl.next
 			bl.next++
 		}
